@@ -388,14 +388,59 @@ pub mod twins_p;
 #[path = "twins/q.rs"]
 pub mod twins_q;
 
+// shapes 6 and 7: associated functions with one name and signature, emitted by TWO invocations
+// of one macro arm into one module: only the invocation sites (line) differ
+macro_rules! memo_assoc {
+    ($ty:ident, $shape:expr) => {
+        pub struct $ty;
+        impl $ty {
+            #[memo]
+            pub fn twin(db: &SimDb, k: u8) -> i64 {
+                twin_x_body(db, $shape, k)
+            }
+        }
+    };
+}
+memo_assoc!(AssocA, 6);
+memo_assoc!(AssocB, 7);
+// shapes 8 and 9: one module, one signature, attributes at (12, 1) and (8, 5)
+#[path = "twins/xor.rs"]
+pub mod twins_xor;
+const _: () = {
+    let src = include_str!("twins/xor.rs").as_bytes();
+    // the attribute lines really are where the module says (line 8 indented by four, line 12 not)
+    let mut line = 1u32;
+    let mut i = 0;
+    let mut ok8 = false;
+    let mut ok12 = false;
+    while i < src.len() {
+        if line == twins_xor::LOCAL_MEMO_LINE && i + 11 < src.len() && src[i] == b' ' && src[i + 3] == b' ' && src[i + 4] == b'#' {
+            ok8 = true;
+        }
+        if line == twins_xor::FREE_MEMO_LINE && src[i] == b'#' && (i == 0 || src[i - 1] == b'\n') {
+            ok12 = true;
+        }
+        if src[i] == b'\n' {
+            line += 1;
+        }
+        i += 1;
+    }
+    assert!(ok8 && ok12, "layout of twins/xor.rs changed");
+};
+
 pub fn twin_x(db: &SimDb, shape: u8, k: u8) -> i64 {
-    match shape % 6 {
+    match shape % 10 {
+        6 => *AssocA::twin(db, k),
+        7 => *AssocB::twin(db, k),
+        8 => *twins_xor::twin(db, k),
+        9 => twins_xor::local_twin(db, k),
         0 => *twin_x0(db, k),
         1 => *twin_x1(db, k),
         2 => *v11::twin(db, k),
         3 => *v1::twin(db, k),
         4 => *twins_p::x::twin(db, k),
-        _ => *twins_q::x::twin(db, k),
+        5 => *twins_q::x::twin(db, k),
+        _ => unreachable!(),
     }
 }
 
